@@ -50,7 +50,8 @@ CHECKS = {
             ("R-TMP.modes", "r_tmp", "run_modes", ("quick", "thorough")),
             ("R-ABI", "r_abi", "run", ("quick", "thorough")),
             ("R-CONTRACT", "r_contract", "run", ("thorough",)),
-            ("R-FATTAB", "r_fattab", "run", ("quick", "thorough"))],
+            ("R-FATTAB", "r_fattab", "run", ("quick", "thorough")),
+            ("R-OVERLAP.assert", "r_alias", "run_c14", ("quick", "thorough"))],
 }
 
 # rule id -> (module, function) used by the mutation self-tests
@@ -86,6 +87,7 @@ RULES = {
     "R-ABI.state": ("r_abi", "run_state"),
     "R-BUFGROW": ("r_alloc", "run_bufgrow"),
     "R-MPFZERO": ("r_mpfzero", "run"),
+    "R-OVERLAP.assert": ("r_alias", "run_c14"),
     "R-CXXMAP": ("r_cxxmap", "run"),
     "R-EXTENT.c13": ("r_alias", "run_c13"),
     "R-ABI.c03": ("r_abi", "run_c03"),
@@ -188,6 +190,8 @@ EXPLANATION = {
 }
 
 ASSUMPTIONS = {
+    "R-OVERLAP.assert": ["aliasflow's copy clause: 'destination below source inside what may be one block' is decided from base-pointer / advanced-"
+                         "pointer status and constant offsets; blocks the function itself installs (init functions) are nobody else's"],
     "R-CXXMAP": ["the conflict table (py/r_cxxmap.py SEM) is read off the manual's C++ interface chapter: / and % truncate, >> floors, the named "
                  "functions; helper calls and functions of the functor's own family are free", "delegation between functors is followed by class "
                  "name and operand kind (all overloads of the callee class for that kind)"],
